@@ -23,12 +23,17 @@ var templates = []string{
 	"(shared-memo 2)",
 	"(deref (future (+ 1 2)))",
 	"(try %O-x (catch e :unbound))",
+	// the catch variable holds this evaluation's own thrown object while its handler runs
+	"(try (throw (quote %P-tag)) (catch e (do (shared-memo 2) (= e (quote %P-tag)))))",
 	"(let [v 3 w (+ v 1)] (list v w))",
 	"(do (def %P-f (fn [n] (if (< n 1) 0 (+ n (%P-f (- n 1)))))) (%P-f 3))",
 	"(cond false 1 (= 1 1) (or nil 7))",
 	"(do (def %P-m (memoize (fn [n] (+ n 1)))) (list (%P-m 1) (%P-m 1)))",
 	"(try (throw 1) (catch e (+ e 1)))",
 }
+
+// names the templates bind locally (let variables, parameters, catch variables): never visible in the shared environment
+var localNames = []string{"g", "h", "e", "v", "w", "n", "k"}
 
 const observeOther = 4 // index of the template that looks at the other evaluation's global
 
@@ -117,6 +122,10 @@ func experiment(ka, kb int) {
 	}
 	<-done
 	<-done
+	for _, name := range localNames {
+		_, gerr := Env.Get(Symbol{Val: name})
+		vrt.Assert(gerr != nil, "a local binding of an evaluation is visible in the shared environment afterwards: "+name)
+	}
 	for t := 0; t < 2; t++ {
 		k := ks[t]
 		vrt.Assert(results[t].err == nil, "an evaluation failed when run together with another one: "+templates[k])
